@@ -69,14 +69,14 @@ def main(tier='quick', nshards=16, seed=0):
          got.get('bip173-addr', set()))
     # non-ASCII substitutions at every position of the three renderings
     big = tier == 'thorough'
-    spec_addrs = fixed if big else [x for k, x in enumerate(fixed) if k in (0, 1, 3) or x[0] in ('bcrt', 'kis', 'fthwyjl', '1')]
+    spec_addrs = fixed if big else [x for k, x in enumerate(fixed) if k in (0, 1, 3) or x[0] in ('bcrt', 'kis', 'fthwyjl', '1') or k >= len(fixed) - 2]
     exp, expfw = set(), set()
     for (h, a) in spec_addrs:
         lo, up = a.lower(), a.upper()
         mixed = ''.join(c.upper() if k % 2 else c for k, c in enumerate(lo))
         for form in (lo, up, mixed):
             for i in range(len(form)):
-                for cp in M.SPECIALS:
+                for cp in sorted(set(M.casemap_scan()) | set(M.CASEMAP_SPECIALS)) + M.OTHER_SPECIALS:
                     exp.add('\t'.join(['c11.decode', cps(h), cps(form[:i] + chr(cp) + form[i + 1:])]))
                 expfw.add('\t'.join(['c11.decode', cps(h), cps(form[:i] + M.fullwidth(form[i]) + form[i + 1:])]))
     need('special-sub', exp, got.get('special-sub', set()))
@@ -86,6 +86,12 @@ def main(tier='quick', nshards=16, seed=0):
     exp = {(ch, str(v), ln) for ch in M.CHAINS for ln in range(43) for v in (0, 1, 16, 17)
            if v > 16 or (2 <= ln <= 40 and (v != 0 or ln in (20, 32)))}
     need('str', exp, keys)
+    hp = got.get('history-pair', set())
+    print('history-pair           expected %7d  got %d' % (27 * 27, len(hp)))
+    ok = ok and len(hp) == 27 * 27
+    op_ = got.get('observer-pair', set())
+    print('observer-pair          expected %7d  got %d' % (6 * 100 * 2 + 2, len(op_)))
+    ok = ok and len(op_) == 6 * 100 * 2 + 2
     if big:
         for (h, v, pr) in (('bcrt', 16, b'\x51\xa7'),):
             a = p._enc(h, v, pr)
